@@ -35,11 +35,6 @@ def plain : PC → Bool
 /-- the closing thread has passed the barrier (the other application threads have finished) -/
 def pastBarrier (th : Thr) : Bool := th.closing || th.pc == .stopSet || th.pc == .joinKa
 
-/-- program points from which the thread's current call transmits nothing any more -/
-def noTx : PC → Bool
-  | .recv | .requeue | .release | .actStore | .done => true
-  | _ => false
-
 structure Tear (s : Sys) : Prop where
   /-- the stopper joins, or nobody closes -/
   safe : s.join = true ∨ ∀ (t : Nat) (th : Thr), s.thr[t]? = some th → th.kind ≠ .closer
@@ -63,9 +58,12 @@ structure Tear (s : Sys) : Prop where
   deact : s.activated = false → ∀ (t : Nat) (th : Thr), s.thr[t]? = some th → th.pc = .done
   /-- the joining thread has set the event -/
   stop : ∀ (t : Nat) (th : Thr), s.thr[t]? = some th → th.pc = .joinKa → s.stopped = true
-  /-- once Close Session is on the wire, only its sender is still at work, and it transmits no more -/
+  /-- once Close Session is on the wire, only its sender is still at work (it may have to retransmit it) -/
   closed : (monOf s.wire).closed = true → ∀ (t : Nat) (th : Thr), s.thr[t]? = some th →
-      th.pc = .done ∨ (th.closing = true ∧ noTx th.pc = true)
+      th.pc = .done ∨ (th.closing = true ∧ (monOf s.wire).closedBy = some t)
+  /-- the call the closing thread makes after the stopper is Close Session -/
+  cmdClose : ∀ (t : Nat) (th : Thr), s.thr[t]? = some th → th.closing = true → plain th.pc = true →
+      th.cmd = closeCmd
 
 theorem pastBarrier_closer {s : Sys} (ht : Tear s) {t : Nat} {th : Thr} (hget : s.thr[t]? = some th)
     (h : pastBarrier th = true) : th.kind = .closer := by
@@ -91,7 +89,8 @@ theorem tear_frame {s s' : Sys} {t : Nat} {th th' : Thr} (ht : Tear s) (hget : s
     (hjk : th'.pc = .joinKa → s'.stopped = true)
     (hdeact : s'.activated = false → ∀ (t1 : Nat) (th1 : Thr), s'.thr[t1]? = some th1 → th1.pc = .done)
     (hclosed : (monOf s'.wire).closed = true → ∀ (t1 : Nat) (th1 : Thr), s'.thr[t1]? = some th1 →
-      th1.pc = .done ∨ (th1.closing = true ∧ noTx th1.pc = true)) : Tear s' := by
+      th1.pc = .done ∨ (th1.closing = true ∧ (monOf s'.wire).closedBy = some t1))
+    (hcc : th'.closing = true → plain th'.pc = true → th'.cmd = closeCmd) : Tear s' := by
   constructor
   · rw [hjoin]
     rcases ht.safe with h | h
@@ -167,6 +166,11 @@ theorem tear_frame {s s' : Sys} {t : Nat} {th th' : Thr} (ht : Tear s) (hget : s
     · exact hjk hp
     · exact hstop (ht.stop _ _ g1 hp)
   · exact hclosed
+  · intro t1 th1 h1 a b
+    rw [hthr] at h1
+    rcases get_set_cases hget h1 with ⟨rfl, rfl⟩ | ⟨_, g1⟩
+    · exact hcc a b
+    · exact ht.cmdClose _ _ g1 a b
 
 /-- `barrier` clause of the frame when the thread was past the barrier already. -/
 theorem pb_of_old {s : Sys} {t : Nat} {th th' : Thr} (ht : Tear s) (hget : s.thr[t]? = some th)
@@ -183,31 +187,33 @@ theorem deact_frame {s s' : Sys} {t : Nat} {th : Thr} (ht : Tear s) (hget : s.th
   rw [hact] at h
   exact absurd (ht.deact h t th hget) hnd
 
-/-- `closed` clause of the frame when the wire's Close Session flag is untouched. -/
+/-- `closed` clause of the frame when the wire's Close Session flags are untouched. -/
 theorem closed_frame {s s' : Sys} {t : Nat} {th th' : Thr} (ht : Tear s) (hget : s.thr[t]? = some th)
-    (hthr : s'.thr = s.thr.set t th') (hw : (monOf s'.wire).closed = (monOf s.wire).closed)
-    (hnd : th.pc ≠ .done) (hclosing : th'.closing = th.closing)
-    (hnotx : th.closing = true → noTx th.pc = true → noTx th'.pc = true) :
+    (hthr : s'.thr = s.thr.set t th')
+    (hw : (monOf s'.wire).closed = (monOf s.wire).closed ∧ (monOf s'.wire).closedBy = (monOf s.wire).closedBy)
+    (hnd : th.pc ≠ .done) (hclosing : th'.closing = th.closing) :
     (monOf s'.wire).closed = true → ∀ (t1 : Nat) (th1 : Thr), s'.thr[t1]? = some th1 →
-      th1.pc = .done ∨ (th1.closing = true ∧ noTx th1.pc = true) := by
+      th1.pc = .done ∨ (th1.closing = true ∧ (monOf s'.wire).closedBy = some t1) := by
   intro hc t1 th1 h1
-  rw [hw] at hc
+  rw [hw.1] at hc
   rw [hthr] at h1
+  rw [hw.2]
   rcases get_set_cases hget h1 with ⟨rfl, rfl⟩ | ⟨_, g1⟩
   · rcases ht.closed hc _ _ hget with h | ⟨h, h'⟩
     · exact absurd h hnd
-    · exact Or.inr ⟨by rw [hclosing]; exact h, hnotx h h'⟩
+    · exact Or.inr ⟨by rw [hclosing]; exact h, h'⟩
   · exact ht.closed hc _ _ g1
 
 /-- A step along the call path: only the program point and the registers of `t` change. -/
 theorem tear_plain {s s' : Sys} {t : Nat} {th th' : Thr} (ht : Tear s) (hget : s.thr[t]? = some th)
     (hthr : s'.thr = s.thr.set t th') (hjoin : s'.join = s.join) (hstop : s'.stopped = s.stopped)
-    (hact : s'.activated = s.activated) (hw : (monOf s'.wire).closed = (monOf s.wire).closed)
+    (hact : s'.activated = s.activated)
+    (hw : (monOf s'.wire).closed = (monOf s.wire).closed ∧ (monOf s'.wire).closedBy = (monOf s.wire).closedBy)
     (hnd : th.pc ≠ .done) (hkind : th'.kind = th.kind) (hclosing : th'.closing = th.closing)
     (hcmd : th'.cmd = th.cmd) (hp : plain th'.pc = true)
-    (hnotx : noTx th.pc = true → noTx th'.pc = true) : Tear s' := by
+    (hpl : closerOnly th.pc = false) : Tear s' := by
   refine tear_frame ht hget hthr hjoin (by rw [hstop]; exact id) hnd hkind hclosing (fun _ => hcmd) ?_ ?_ ?_ ?_ ?_ ?_
-    (deact_frame ht hget hact hnd) (closed_frame ht hget hthr hw hnd hclosing (fun _ => hnotx))
+    (deact_frame ht hget hact hnd) (closed_frame ht hget hthr hw hnd hclosing) ?_
   · intro h; rw [h] at hp; cases hp
   · intro h; cases hpc : th'.pc <;> simp_all [plain, closerOnly]
   · intro h; cases hpc : th'.pc <;> simp_all [plain, latePc]
@@ -220,6 +226,14 @@ theorem tear_plain {s s' : Sys} {t : Nat} {th th' : Thr} (ht : Tear s) (hget : s
     · rw [h] at hp; cases hp
     · rw [h] at hp; cases hp
   · intro h; rw [h] at hp; cases hp
+  · intro hcl _
+    rw [hclosing] at hcl
+    rw [hcmd]
+    apply ht.cmdClose _ _ hget hcl
+    have hk := ht.closingKind _ _ hget hcl
+    cases hpc : th.pc <;> simp_all [plain, closerOnly]
+    have := ht.kaPc _ _ hget hpc
+    rw [hk] at this; cases this
 
 theorem allDone_get {k : Kind} {l : List Thr} (h : allDone k l = true) {t : Nat} {th : Thr}
     (hget : l[t]? = some th) (hk : th.kind = k) : th.pc = .done := by
@@ -316,6 +330,11 @@ theorem tear_enter_late {s s' : Sys} {t : Nat} {th : Thr} (ht : Tear s) (hget : 
     rcases ht.closed hc _ _ hget with h | ⟨h, _⟩
     · exact absurd h hnd
     · rw [hcl] at h; cases h
+  · intro t1 th1 h1 a b
+    rw [hthr] at h1
+    rcases get_set_cases hget h1 with ⟨rfl, rfl⟩ | ⟨_, g1⟩
+    · cases b
+    · exact ht.cmdClose _ _ g1 a b
 
 /-- every step of every thread preserves the teardown invariant -/
 theorem stepThr_tear {s s' : Sys} {t : Nat} {th : Thr} (ht : Tear s) (hget : s.thr[t]? = some th)
@@ -325,64 +344,64 @@ theorem stepThr_tear {s s' : Sys} {t : Nat} {th : Thr} (ht : Tear s) (hget : s.t
     cases hsl : s.seqLocked with
     | false =>
       simp [stepThr, hpc, hsl] at h; subst h
-      exact tear_plain ht hget rfl rfl rfl rfl rfl (by simp [hpc]) rfl rfl rfl rfl (by simp [hpc, noTx])
+      exact tear_plain ht hget rfl rfl rfl rfl ⟨rfl, rfl⟩ (by simp [hpc]) rfl rfl rfl rfl (by simp [hpc, closerOnly])
     | true =>
       cases hl : s.lock with
       | some x => simp [stepThr, hpc, hsl, hl] at h
       | none =>
         simp [stepThr, hpc, hsl, hl] at h; subst h
-        exact tear_plain ht hget rfl rfl rfl rfl rfl (by simp [hpc]) rfl rfl rfl rfl (by simp [hpc, noTx])
+        exact tear_plain ht hget rfl rfl rfl rfl ⟨rfl, rfl⟩ (by simp [hpc]) rfl rfl rfl rfl (by simp [hpc, closerOnly])
   | lkLoad =>
     simp [stepThr, hpc] at h; subst h
-    exact tear_plain ht hget rfl rfl rfl rfl rfl (by simp [hpc]) rfl rfl rfl rfl (by simp [hpc, noTx])
+    exact tear_plain ht hget rfl rfl rfl rfl ⟨rfl, rfl⟩ (by simp [hpc]) rfl rfl rfl rfl (by simp [hpc, closerOnly])
   | lkStore =>
     simp [stepThr, hpc] at h; subst h
-    exact tear_plain ht hget rfl rfl rfl rfl rfl (by simp [hpc]) rfl rfl rfl rfl (by simp [hpc, noTx])
+    exact tear_plain ht hget rfl rfl rfl rfl ⟨rfl, rfl⟩ (by simp [hpc]) rfl rfl rfl rfl (by simp [hpc, closerOnly])
   | lkHdr =>
     simp [stepThr, hpc] at h; subst h
-    exact tear_plain ht hget rfl rfl rfl rfl rfl (by simp [hpc]) rfl rfl rfl rfl (by simp [hpc, noTx])
+    exact tear_plain ht hget rfl rfl rfl rfl ⟨rfl, rfl⟩ (by simp [hpc]) rfl rfl rfl rfl (by simp [hpc, closerOnly])
   | incStore =>
     simp [stepThr, hpc] at h; subst h
-    exact tear_plain ht hget rfl rfl rfl rfl rfl (by simp [hpc]) rfl rfl rfl rfl (by simp [hpc, noTx])
+    exact tear_plain ht hget rfl rfl rfl rfl ⟨rfl, rfl⟩ (by simp [hpc]) rfl rfl rfl rfl (by simp [hpc, closerOnly])
   | hdrLoad =>
     simp [stepThr, hpc] at h; subst h
-    exact tear_plain ht hget rfl rfl rfl rfl rfl (by simp [hpc]) rfl rfl rfl rfl (by simp [hpc, noTx])
+    exact tear_plain ht hget rfl rfl rfl rfl ⟨rfl, rfl⟩ (by simp [hpc]) rfl rfl rfl rfl (by simp [hpc, closerOnly])
   | acquire =>
     cases hl : s.lock with
     | some x => simp [stepThr, hpc, hl] at h
     | none =>
       simp [stepThr, hpc, hl] at h; subst h
-      exact tear_plain ht hget rfl rfl rfl rfl rfl (by simp [hpc]) rfl rfl rfl rfl (by simp [hpc, noTx])
+      exact tear_plain ht hget rfl rfl rfl rfl ⟨rfl, rfl⟩ (by simp [hpc]) rfl rfl rfl rfl (by simp [hpc, closerOnly])
   | actLoad =>
     simp [stepThr, hpc] at h; subst h
-    refine tear_plain ht hget rfl rfl rfl rfl rfl (by simp [hpc]) rfl rfl rfl ?_ (by simp [hpc, noTx])
+    refine tear_plain ht hget rfl rfl rfl rfl ⟨rfl, rfl⟩ (by simp [hpc]) rfl rfl rfl ?_ (by simp [hpc, closerOnly])
     simp only []; split <;> rfl
   | ssLoad =>
     simp [stepThr, hpc] at h; subst h
-    exact tear_plain ht hget rfl rfl rfl rfl rfl (by simp [hpc]) rfl rfl rfl rfl (by simp [hpc, noTx])
+    exact tear_plain ht hget rfl rfl rfl rfl ⟨rfl, rfl⟩ (by simp [hpc]) rfl rfl rfl rfl (by simp [hpc, closerOnly])
   | ssStore =>
     simp [stepThr, hpc] at h; subst h
-    exact tear_plain ht hget rfl rfl rfl rfl rfl (by simp [hpc]) rfl rfl rfl rfl (by simp [hpc, noTx])
+    exact tear_plain ht hget rfl rfl rfl rfl ⟨rfl, rfl⟩ (by simp [hpc]) rfl rfl rfl rfl (by simp [hpc, closerOnly])
   | ssChk =>
     simp [stepThr, hpc] at h; subst h
-    refine tear_plain ht hget rfl rfl rfl rfl rfl (by simp [hpc]) rfl rfl rfl ?_ (by simp [hpc, noTx])
+    refine tear_plain ht hget rfl rfl rfl rfl ⟨rfl, rfl⟩ (by simp [hpc]) rfl rfl rfl ?_ (by simp [hpc, closerOnly])
     simp only []; split <;> rfl
   | ssWrap =>
     simp [stepThr, hpc] at h; subst h
-    exact tear_plain ht hget rfl rfl rfl rfl rfl (by simp [hpc]) rfl rfl rfl rfl (by simp [hpc, noTx])
+    exact tear_plain ht hget rfl rfl rfl rfl ⟨rfl, rfl⟩ (by simp [hpc]) rfl rfl rfl rfl (by simp [hpc, closerOnly])
   | ssHdr k =>
     cases k with
     | zero =>
       simp [stepThr, hpc] at h; subst h
-      exact tear_plain ht hget rfl rfl rfl rfl rfl (by simp [hpc]) rfl rfl rfl rfl (by simp [hpc, noTx])
+      exact tear_plain ht hget rfl rfl rfl rfl ⟨rfl, rfl⟩ (by simp [hpc]) rfl rfl rfl rfl (by simp [hpc, closerOnly])
     | succ k =>
       simp [stepThr, hpc] at h; subst h
-      exact tear_plain ht hget rfl rfl rfl rfl rfl (by simp [hpc]) rfl rfl rfl rfl (by simp [hpc, noTx])
+      exact tear_plain ht hget rfl rfl rfl rfl ⟨rfl, rfl⟩ (by simp [hpc]) rfl rfl rfl rfl (by simp [hpc, closerOnly])
   | send =>
     simp [stepThr, hpc] at h; subst h
     have hnd : th.pc ≠ .done := by simp [hpc]
     refine tear_frame ht hget rfl rfl id hnd rfl rfl (fun _ => rfl) (by intro h; cases h) (by intro h; cases h)
-      (by intro h; cases h) (by intro h; cases h) ?_ (by intro h; cases h) (deact_frame ht hget rfl hnd) ?_
+      (by intro h; cases h) (by intro h; cases h) ?_ (by intro h; cases h) (deact_frame ht hget rfl hnd) ?_ ?_
     · apply pb_of_old ht hget
       intro h
       simp only [pastBarrier, Bool.or_eq_true, beq_iff_eq] at h ⊢
@@ -391,52 +410,60 @@ theorem stepThr_tear {s s' : Sys} {t : Nat} {th : Thr} (ht : Tear s) (hget : s.t
       · cases h
       · cases h
     · intro hc t1 th1 h1
-      -- Close Session was not on the wire before: the sender is at `send`
-      have hold : (monOf s.wire).closed = false := by
-        cases hcl : (monOf s.wire).closed with
-        | false => rfl
-        | true =>
-          rcases ht.closed hcl _ _ hget with h | ⟨_, h⟩
+      cases hold : (monOf s.wire).closed with
+      | true =>
+        -- Close Session is on the wire already: this is its sender, retransmitting
+        have key := ht.closed hold
+        rcases get_set_cases hget h1 with ⟨rfl, rfl⟩ | ⟨n1, g1⟩
+        · rcases key _ _ hget with h | ⟨h, h'⟩
           · exact absurd h hnd
-          · rw [hpc] at h; cases h
-      have hcmd : th.cmd = closeCmd := by
-        simp [Sys.upd, Mon.step, hold] at hc
-        exact hc
-      have hclosing : th.closing = true := by
-        cases hcl : th.closing with
-        | true => rfl
-        | false => exact absurd hcmd (ht.cmdNotClose _ _ hget hcl)
-      rcases get_set_cases hget h1 with ⟨rfl, rfl⟩ | ⟨n1, g1⟩
-      · exact Or.inr ⟨hclosing, rfl⟩
-      · exact Or.inl (ht.late _ _ hget hclosing _ _ g1 n1)
+          · exact Or.inr ⟨h, by simp [Sys.upd, Mon.step, hold, h']⟩
+        · rcases key _ _ g1 with h | ⟨h, h'⟩
+          · exact Or.inl h
+          · exact Or.inr ⟨h, by simp [Sys.upd, Mon.step, hold, h']⟩
+      | false =>
+        -- Close Session was not on the wire before: this datagram is it
+        have hcmd : th.cmd = closeCmd := by
+          simp [Sys.upd, Mon.step, hold] at hc
+          exact hc
+        have hclosing : th.closing = true := by
+          cases hcl : th.closing with
+          | true => rfl
+          | false => exact absurd hcmd (ht.cmdNotClose _ _ hget hcl)
+        rcases get_set_cases hget h1 with ⟨rfl, rfl⟩ | ⟨n1, g1⟩
+        · exact Or.inr ⟨hclosing, by simp [Sys.upd, Mon.step, hold, hcmd]⟩
+        · exact Or.inl (ht.late _ _ hget hclosing _ _ g1 n1)
+    · intro hcl _
+      exact ht.cmdClose t th hget hcl (by rw [hpc]; rfl)
   | recv =>
     simp only [stepThr, hpc] at h
     cases hq : s.q with
     | cons r q' =>
       simp [hq] at h; subst h
-      refine tear_plain ht hget rfl rfl rfl rfl rfl (by simp [hpc]) rfl rfl rfl ?_ ?_
-      · simp only []; split <;> rfl
-      · intro _; simp only []; split <;> rfl
+      refine tear_plain ht hget rfl rfl rfl rfl ⟨rfl, rfl⟩ (by simp [hpc]) rfl rfl rfl ?_ (by simp [hpc, closerOnly])
+      simp only []; split <;> rfl
     | nil =>
       cases hsk : s.sock with
       | cons r sk =>
         simp [hq, hsk] at h; subst h
-        refine tear_plain ht hget rfl rfl rfl rfl ?_ (by simp [hpc]) rfl rfl rfl ?_ ?_
-        · simp [Sys.upd, Mon.step]
+        refine tear_plain ht hget rfl rfl rfl rfl ?_ (by simp [hpc]) rfl rfl rfl ?_ (by simp [hpc, closerOnly])
+        · constructor <;> simp [Sys.upd, Mon.step]
         · simp only []; split <;> rfl
-        · intro _; simp only []; split <;> rfl
       | nil =>
         simp [hq, hsk] at h; subst h
-        exact tear_plain ht hget rfl rfl rfl rfl rfl (by simp [hpc]) rfl rfl rfl rfl (by simp [noTx])
+        refine tear_plain ht hget rfl rfl rfl rfl ?_ (by simp [hpc]) rfl rfl rfl ?_ (by simp [hpc, closerOnly])
+        · constructor <;> simp [Sys.upd, Mon.step]
+        · simp only []; (repeat' split) <;> rfl
   | requeue =>
     simp [stepThr, hpc] at h; subst h
-    exact tear_plain ht hget rfl rfl rfl rfl rfl (by simp [hpc]) rfl rfl rfl rfl (by simp [noTx])
+    refine tear_plain ht hget rfl rfl rfl rfl ⟨rfl, rfl⟩ (by simp [hpc]) rfl rfl rfl ?_ (by simp [hpc, closerOnly])
+    simp only []; split <;> rfl
   | release =>
     simp [stepThr, hpc] at h; subst h
     have hnd : th.pc ≠ .done := by simp [hpc]
     generalize hr : (match th.got with | some r => CallRes.ok th.mine r.serial | none => CallRes.retryError th.mine) = r
     refine tear_frame ht hget rfl rfl id hnd rfl rfl (fun _ => rfl) ?_ ?_ ?_ ?_ ?_ ?_
-      (deact_frame ht hget rfl hnd) (closed_frame ht hget rfl rfl hnd rfl ?_)
+      (deact_frame ht hget rfl hnd) (closed_frame ht hget rfl ⟨rfl, rfl⟩ hnd rfl) ?_
     · intro h
       simp only [afterCall, nextPc] at h
       cases hk : th.kind <;> simp [hk] at h ⊢
@@ -466,10 +493,11 @@ theorem stepThr_tear {s s' : Sys} {t : Nat} {th : Thr} (ht : Tear s) (hget : s.t
       simp only [afterCall, nextPc] at h
       cases hk : th.kind <;> simp [hk] at h
       all_goals (repeat' split at h) <;> simp_all
-    · intro hcl _
-      have hk := ht.closingKind _ _ hget hcl
-      simp only [afterCall, nextPc, hk, hcl, if_true]
-      split <;> rfl
+    · intro hcl hp
+      have hcl' : th.closing = true := hcl
+      have hk := ht.closingKind _ _ hget hcl'
+      simp only [afterCall, nextPc, hk, hcl', if_true] at hp
+      split at hp <;> cases hp
   | kaWait =>
     have hnd : th.pc ≠ .done := by simp [hpc]
     simp only [stepThr, hpc] at h
@@ -477,7 +505,7 @@ theorem stepThr_tear {s s' : Sys} {t : Nat} {th : Thr} (ht : Tear s) (hget : s.t
     · simp at h; subst h
       refine tear_frame ht hget rfl rfl id hnd rfl rfl (fun _ => rfl) (by intro h; cases h) (by intro h; cases h)
         (by intro h; cases h) (by intro h; cases h) ?_ (by intro h; cases h) (deact_frame ht hget rfl hnd)
-        (closed_frame ht hget rfl rfl hnd rfl (fun _ _ => rfl))
+        (closed_frame ht hget rfl ⟨rfl, rfl⟩ hnd rfl) (by intro _ h; cases h)
       apply pb_of_old ht hget
       intro h
       simp only [pastBarrier, Bool.or_eq_true, beq_iff_eq] at h ⊢
@@ -488,7 +516,7 @@ theorem stepThr_tear {s s' : Sys} {t : Nat} {th : Thr} (ht : Tear s) (hget : s.t
     · split at h
       · cases h
       · simp at h; subst h
-        exact tear_plain ht hget rfl rfl rfl rfl rfl hnd rfl rfl rfl rfl (by simp [hpc, noTx])
+        exact tear_plain ht hget rfl rfl rfl rfl ⟨rfl, rfl⟩ hnd rfl rfl rfl rfl (by simp [hpc, closerOnly])
   | await =>
     have hnd : th.pc ≠ .done := by simp [hpc]
     have hk : th.kind = .closer := ht.closerPc _ _ hget (by rw [hpc]; rfl)
@@ -501,7 +529,7 @@ theorem stepThr_tear {s s' : Sys} {t : Nat} {th : Thr} (ht : Tear s) (hget : s.t
         simp [hka] at h; subst h
         refine tear_frame ht hget rfl rfl id hnd rfl rfl (fun _ => rfl)
           (by intro h; cases h) (fun _ => hk) (by intro h; cases h) (fun _ => hcl) ?_ (by intro h; cases h)
-          (deact_frame ht hget rfl hnd) (closed_frame ht hget rfl rfl hnd rfl (by simp [hpc, noTx]))
+          (deact_frame ht hget rfl hnd) (closed_frame ht hget rfl ⟨rfl, rfl⟩ hnd rfl) (by intro _ h; cases h)
         intro _
         exact ⟨hk, fun t1 th1 h1 k1 => allDone_get hall h1 k1⟩
       | false =>
@@ -522,7 +550,7 @@ theorem stepThr_tear {s s' : Sys} {t : Nat} {th : Thr} (ht : Tear s) (hget : s.t
       refine tear_frame ht hget rfl (by simp [Sys.upd, hj]) (fun _ => rfl) hnd rfl rfl (fun _ => rfl)
         (by intro h; cases h) (fun _ => hk) (by intro h; cases h)
         (fun _ => ht.earlyOpen _ _ hget (by rw [hpc]; rfl)) ?_ (fun _ => rfl)
-        (deact_frame ht hget rfl hnd) (closed_frame ht hget rfl rfl hnd rfl (by simp [hpc, noTx]))
+        (deact_frame ht hget rfl hnd) (closed_frame ht hget rfl ⟨rfl, rfl⟩ hnd rfl) (by intro _ h; cases h)
       apply pb_of_old ht hget
       intro _
       simp [pastBarrier, hpc]
@@ -548,7 +576,7 @@ theorem stepThr_tear {s s' : Sys} {t : Nat} {th : Thr} (ht : Tear s) (hget : s.t
     have hcl : th.closing = true := ht.lateClosing _ _ hget (by rw [hpc]; rfl)
     simp [stepThr, hpc] at h; subst h
     refine tear_frame ht hget rfl rfl id hnd ?_ ?_ ?_ ?_ ?_ ?_ ?_ ?_ ?_
-      (deact_frame ht hget rfl hnd) (closed_frame ht hget rfl rfl hnd ?_ (by simp [hpc, noTx]))
+      (deact_frame ht hget rfl hnd) (closed_frame ht hget rfl ⟨rfl, rfl⟩ hnd ?_) ?_
     · split <;> rfl
     · split <;> rfl
     · intro h; split at h <;> simp [hcl] at h
@@ -561,6 +589,10 @@ theorem stepThr_tear {s s' : Sys} {t : Nat} {th : Thr} (ht : Tear s) (hget : s.t
       simp [pastBarrier, hcl]
     · intro h; split at h <;> cases h
     · split <;> rfl
+    · intro _ hp
+      split
+      · rfl
+      · split at hp <;> simp_all [plain]
   | actStore =>
     have hnd : th.pc ≠ .done := by simp [hpc]
     have hk : th.kind = .closer := ht.closerPc _ _ hget (by rw [hpc]; rfl)
@@ -568,7 +600,7 @@ theorem stepThr_tear {s s' : Sys} {t : Nat} {th : Thr} (ht : Tear s) (hget : s.t
     simp [stepThr, hpc] at h; subst h
     refine tear_frame ht hget rfl rfl id hnd rfl rfl (fun _ => rfl)
       (by intro h; cases h) (fun _ => hk) (by intro h; cases h) (by intro h; cases h) ?_ (by intro h; cases h)
-      ?_ (closed_frame ht hget rfl rfl hnd rfl (fun _ _ => rfl))
+      ?_ (closed_frame ht hget rfl ⟨rfl, rfl⟩ hnd rfl) (by intro _ h; cases h)
     · apply pb_of_old ht hget
       intro _
       simp [pastBarrier, hcl]
